@@ -98,7 +98,7 @@ class Exec:
         if e.id in self.P.classes or e.id in ("dict", "set", "list", "tuple", "len", "isinstance", "zip",
                                               "enumerate", "range", "reversed", "all", "any", "sorted",
                                               "min", "max", "str", "_id", "id", "Exception", "ValueError",
-                                              "TypeError", "KeyError", "frozenset", "object", "cast", "sum"):
+                                              "TypeError", "KeyError", "frozenset", "object", "cast", "sum", "Sequence", "type", "super"):
             return k(SClosure("name", e.id), st)
         if e.id in self.P.func_module:
             return k(SClosure("func", f"{self.P.func_module[e.id]}.{e.id}"), st)
@@ -140,6 +140,11 @@ class Exec:
         return self.ev(e.value, st, got)
 
     def getattr(self, o: SV, name: str, st: St, k):
+        if isinstance(o, SPrim) and (o.ty, name) in S.OPAQUE_ATTRS:
+            ty, f = S.OPAQUE_ATTRS[(o.ty, name)]
+            return k(S.wrap(ty, f(o.t)), st)
+        if isinstance(o, SPrim) and (o.ty, name) in S.OPAQUE_METHODS:
+            return k(SClosure("method", name, recv=o), st)
         if isinstance(o, SPrim) and o.ty in DATA_CLASSES:
             try:
                 return k(ops.data_field(o, name), st)
@@ -171,6 +176,15 @@ class Exec:
         if isinstance(o, SClosure) and o.kind == "name" and o.name in self.P.classes:
             m = self.P.find_method(o.name, name)
             if m: return k(SClosure("unbound", name, recv=o.name), st)
+        if isinstance(o, SClosure) and o.kind == "super":
+            mro = self.P.mro(o.recv[0])
+            after = mro[mro.index(o.name) + 1:] if o.name in mro else []
+            for c in after:
+                ci = self.P.classes.get(c)
+                if ci and name in ci.methods:
+                    return k(SClosure("boundfn", name, recv=(ci.methods[name], o.recv[1], c)), st)
+            if name == "__init__": return k(SClosure("noop", "object.__init__"), st)
+            raise Unsupported(f"super().{name}")
         if isinstance(o, SRecord):
             if name in o.fields: return k(o.fields[name], st)
             g = self.P.find_getter(o.cls, name)
@@ -185,6 +199,8 @@ class Exec:
         return self.ev(e.value, st, got)
 
     def index(self, o, i, st, k):
+        if isinstance(o, SClosure) and o.kind == "name":      # typing generics: Sequence[Node]
+            return k(o, st)
         if isinstance(o, SRef):
             c = st.cell(o.ref)
             if isinstance(c, DictCell):
@@ -263,6 +279,9 @@ class Exec:
         return self.evs([e.left, e.comparators[0]], st, got)
 
     def compare(self, op, a, b, st, k):
+        if isinstance(op, (ast.Eq, ast.NotEq)) and isinstance(a, SClosure) and isinstance(b, SClosure):
+            t = z3.BoolVal((a.kind, a.name) == (b.kind, b.name))
+            return k(B(t if isinstance(op, ast.Eq) else z3.Not(t)), st)
         if isinstance(op, (ast.Eq, ast.NotEq)):
             def fin(t, st2):
                 return k(B(t if isinstance(op, ast.Eq) else z3.Not(t)), st2)
@@ -341,13 +360,27 @@ class Exec:
             pe = PureEval(self, st3, dict(st3.env, **{g.target.id: x}))
             if g.ifs:
                 return self.filter_comp(e, g, src, i, pe, st3, k)
-            body = pe.ev(e.elt)
+            try:
+                body = pe.ev(e.elt)
+            except Unsupported as u:
+                # the element expression is ill-typed for this element type: fine iff the source is empty
+                def dead(s):
+                    self.vc(f"{self.top_name}.ill_typed_path_unreachable", s, z3.BoolVal(False),
+                            f"comprehension body not evaluable ({u}) on a possibly non-empty sequence")
+                return self.branch(src.n == 0, st3, lambda s: k(EmptySeq(), s), dead)
             if isinstance(body, SRef): raise Unsupported("comprehension producing objects")
             bt = term_of(body)
             es = bt.sort()
             j = z3.Int("j!c")
             arr = z3.Lambda([j], z3.If(z3.And(j >= 0, j < src.n), z3.substitute(bt, (i, j)), S.dflt(es)))
-            return k(SSeq(body.ty, src.n, arr), st3)
+            res = SSeq(body.ty, src.n, arr)
+            # an element expression that is undefined for some element raises (KeyError / IndexError)
+            def go(defs, st4):
+                if not defs: return k(res, st4)
+                exc, c = defs[0]
+                allc = z3.ForAll([i], z3.Implies(z3.And(i >= 0, i < src.n), c))
+                return self.branch(allc, st4, lambda s: go(defs[1:], s), lambda s: self.raise_(exc, s))
+            return go(list(pe.defs), st3)
         return self.ev(g.iter, st, got)
 
     def filter_comp(self, e, g, src, i, pe, st, k):
@@ -369,6 +402,38 @@ class Exec:
         st = st.fact(z3.ForAll([j], z3.Implies(z3.And(j >= 0, j < src.n, c_at(j)),
                      z3.And(dstidx(j) >= 0, dstidx(j) < n, srcidx(dstidx(j)) == j))))
         return k(SSeq(body.ty, n, arr), st)
+
+    def ev_DictComp(self, e, st, k):
+        """{key(x): val(x) for x in seq}: last write wins."""
+        if len(e.generators) != 1 or e.generators[0].ifs: raise Unsupported("dict comprehension form")
+        g = e.generators[0]
+        def got(it, st2):
+            fake = ast.For(target=g.target, iter=g.iter, body=[], orelse=[])
+            st3, tsq, n = self.targets_for(fake, it, st2)
+            i = S.fresh("i!dc", z3.IntSort())
+            env = dict(st3.env)
+            for t, sq in tsq:
+                if not isinstance(t, ast.Name): raise Unsupported("dict comprehension target")
+                env[t.id] = S.wrap(sq.elem, sq.arr[i])
+            from vf.pyvc.spec import PureEval
+            pe = PureEval(self, st3, env)
+            kv, vv = pe.ev(e.key), pe.ev(e.value)
+            if pe.defs: raise Unsupported("partial expression in dict comprehension")
+            kt, vt = term_of(kv), term_of(vv)
+            ks, vs = kt.sort(), vt.sort()
+            dom = S.fresh("dc.dom", z3.ArraySort(ks, z3.BoolSort()))
+            val = S.fresh("dc.val", z3.ArraySort(ks, vs))
+            last = z3.Function(f"dc.last!{S._ctr[0]}", ks, z3.IntSort())
+            key_at = lambda t: z3.substitute(kt, (i, t))
+            val_at = lambda t: z3.substitute(vt, (i, t))
+            j = z3.Int("j!dc"); kk = z3.Const("k!dc", ks)
+            st3 = st3.fact(z3.ForAll([j], z3.Implies(z3.And(j >= 0, j < n), dom[key_at(j)])))
+            st3 = st3.fact(z3.ForAll([kk], z3.Implies(dom[kk], z3.And(
+                last(kk) >= 0, last(kk) < n, key_at(last(kk)) == kk, val[kk] == val_at(last(kk))))))
+            st3 = st3.fact(z3.ForAll([kk, j], z3.Implies(z3.And(dom[kk], j > last(kk), j < n), key_at(j) != kk)))
+            r = new_ref()
+            return k(SRef(("dict", kv.ty, vv.ty), r), st3.put(r, DictCell(kv.ty, vv.ty, dom, val)))
+        return self.ev(g.iter, st, got)
 
     def iter_seq(self, it, st):
         """The sequence a `for` would traverse: (St', SSeq)."""
